@@ -2,6 +2,7 @@
 mod codec;
 mod crypto;
 mod kstrace;
+mod observer;
 mod oracles;
 mod providers;
 mod replay;
@@ -83,6 +84,7 @@ fn cmd_replay(args: &[String]) -> i32 {
     let mixed = !flag(args, "--single-backend");
     let faults = flag(args, "--faults");
     let sqlite = flag(args, "--sqlite");
+    let tamper = (arg_u64(args, "--tamper", 0) as usize, flag(args, "--tamper-exhaustive"), seed);
     std::fs::create_dir_all(&out_dir).ok();
     let f = std::io::BufReader::new(std::fs::File::open(&input).expect("open input"));
     let behaviours: Vec<Value> = f.lines().filter_map(|l| l.ok()).filter(|l| l.starts_with('{')).take(limit).map(|l| serde_json::from_str(&l).expect("json")).collect();
@@ -107,7 +109,7 @@ fn cmd_replay(args: &[String]) -> i32 {
                     if sqlite { opts.sqlite = true; }
                     if let Some(r) = b.get("cfg").and_then(|c| c.get("retention")).and_then(|r| r.as_u64()) { opts.retention = r; }
                     let oj = opts_json(&opts);
-                    let o = replay::run_behaviour(&b, opts, false, faults);
+                    let o = replay::run_behaviour(&b, opts, false, faults || b.get("faults").and_then(|f| f.as_bool()).unwrap_or(false), tamper);
                     let mut files = vec![];
                     if !o.viols.is_empty() {
                         let mut bb = b.clone();
